@@ -8,6 +8,8 @@ def classes_of(sh):
     cl = []
     if S.has_amp_after_bracket(sh):
         cl.append('amp-bracket')
+    if S.media_feature_first(sh):
+        cl.append('media-feature-first')
     return cl
 
 
